@@ -347,7 +347,13 @@ class IndexMediaFile(HTMLHandlerBase):
             return jsonify(result, status=401)
 
         mf = current_media_file
-        if mf.parse_media_file():
+        try:
+            parsed = mf.parse_media_file()
+        except Exception as err:  # pylint: disable=broad-except
+            logging.warning('Failed to parse %s: %s', mf.name, err)
+            models.db.session.rollback()
+            parsed = False
+        if parsed:
             models.db.session.commit()
             result.update({
                 "indexed": mf.pk,
@@ -384,6 +390,8 @@ class MediaSegmentList(HTMLHandlerBase):
         context = self.create_context()
         start = 0
         segments = []
+        if current_media_file.representation is None:
+            return flask.make_response('Media file needs indexing', 404)
         for seg in current_media_file.representation.segments:
             item = {
                 'start': start,
